@@ -137,6 +137,26 @@ Proof.
     intros ->. destruct (sf_sel sf); [reflexivity | discriminate].
 Qed.
 
+(* audit 3, item 13: a statistics file without any gene is refused (ValueError in aggregate_stats).  An accepted
+   file therefore has a non-empty `sum` row at the first leaf of every aggregated population *)
+Lemma agg_all_ok_no_zero cs pops : agg_all cs pops = ROk tt ->
+  forall l0 rest, In (l0 :: rest) pops -> zero_row cs l0 = false.
+Proof.
+  induction pops as [|p r IH]; intros H l0 rest Hin; [destruct Hin|].
+  cbn [agg_all] in H. destruct (agg_check cs p) as [[]|] eqn:Ec; cbn [rbind] in H; [|discriminate].
+  destruct Hin as [->|Hin]; [|exact (IH H l0 rest Hin)].
+  unfold agg_check in Ec. destruct (forallb _ (l0 :: rest)); [|discriminate].
+  destruct (zero_row cs l0); [discriminate | reflexivity].
+Qed.
+
+Theorem leaf_means_accepted_has_genes t sf fs m : get_leaf_means A mean t sf fs = ROk m ->
+  exists cs, raw_stats sf (sf_c2r sf) = Some cs /\
+    forall l0 rest, In (l0 :: rest) (map snd (concat (as_leaves t))) -> zero_row cs l0 = false.
+Proof.
+  intros H. destruct (get_leaf_means_inv t sf fs m H) as (cs & Er & Ea & _).
+  exists cs. split; [exact Er | exact (agg_all_ok_no_zero cs _ Ea)].
+Qed.
+
 (* (1a) the mean of leaf L at gene G is sum(L,G) / max(1, n(L)), both read by name from the file *)
 Theorem leaf_means_by_name t sf fs m : get_leaf_means A mean t sf fs = ROk m ->
   m_cells m = zsort (nodes (leaf_level t)) /\ m_genes m = sf_cols sf /\ m_norm m = Log2CPM /\
@@ -543,14 +563,38 @@ Proof.
 Qed.
 
 Lemma agg_all_keys cs cs' pops : (forall l, is_some (zassoc l cs') = is_some (zassoc l cs)) ->
+  (forall l, zero_row cs' l = zero_row cs l) ->
   agg_all cs' pops = agg_all cs pops.
 Proof.
-  intros H. induction pops as [|p r IH]; [reflexivity|]. cbn. rewrite IH.
+  intros H HZ. induction pops as [|p r IH]; [reflexivity|]. cbn. rewrite IH.
   replace (agg_check cs' p) with (agg_check cs p); [reflexivity|].
-  unfold agg_check. destruct p as [|x p]; [reflexivity|].
+  unfold agg_check. destruct p as [|x p]; [reflexivity|]. rewrite HZ.
   replace (forallb (fun l => is_some (zassoc l cs')) (x :: p)) with (forallb (fun l => is_some (zassoc l cs)) (x :: p));
     [reflexivity|]. generalize (x :: p). intros q. induction q as [|y q IHq]; [reflexivity|].
   cbn. rewrite IHq, H. reflexivity.
+Qed.
+
+(* the rows read from a rectangular `sum` have one entry per column name *)
+Lemma py_index_In {X} (l : list X) i x : py_index l i = Some x -> In x l.
+Proof.
+  unfold py_index. intros H.
+  destruct ((0 <=? i) && (i <? Z.of_nat (length l))); [exact (nth_error_In _ _ H)|].
+  destruct ((- Z.of_nat (length l) <=? i) && (i <? 0)); [exact (nth_error_In _ _ H) | discriminate].
+Qed.
+
+Lemma raw_stats_rows sf c2r cs :
+  Forall (fun r => length r = length (sf_cols sf)) (sf_sum sf) ->
+  raw_stats sf c2r = Some cs ->
+  Forall (fun ke => length (snd (snd ke)) = length (sf_cols sf)) cs.
+Proof.
+  intros F. revert cs. induction c2r as [|[k idx] r IH]; intros cs H; cbn in H.
+  - injection H as <-. constructor.
+  - destruct (raw_entry sf idx) as [[n0 s0]|] eqn:E; [|discriminate].
+    destruct (raw_stats sf r) as [rest|]; [|discriminate]. injection H as <-.
+    constructor; [|apply IH; reflexivity]. cbn [snd].
+    unfold raw_entry in E. destruct (py_index (sf_n sf) idx); [|discriminate].
+    destruct (py_index (sf_sum sf) idx) as [s1|] eqn:E1; [|discriminate]. injection E as _ <-.
+    exact (proj1 (Forall_forall _ _) F _ (py_index_In _ _ _ E1)).
 Qed.
 
 (* (1) a statistics file and its row/column rearrangement are accepted alike and give the same leaf means BY NAME *)
@@ -565,7 +609,8 @@ Theorem leaf_means_order_independent rp cp t sf fs m : sf_wf sf ->
 Proof.
   intros Wf HR HC H.
   destruct (get_leaf_means_inv A mean t sf fs m H) as (cs & Er & Ea & Ec & Eg & En & Eo & NE & Fl & ND & Eb & Es & NDc).
-  pose proof Wf as (_ & _ & _ & Wi).
+  pose proof Wf as (_ & Wrect & _ & Wi).
+  pose proof (raw_stats_rows sf _ cs Wrect Er) as Rows.
   pose proof (raw_stats_rearrange rp cp sf Wf HR _ cs Wi Er) as Er'.
   set (cs' := map (fun ke => (fst ke, (fst (snd ke), RefSide.pick 0 cp (snd (snd ke))))) cs) in *.
   assert (Hz : forall l, zassoc l cs' = option_map (fun e => (fst e, RefSide.pick 0 cp (snd e))) (zassoc l cs)).
@@ -585,7 +630,13 @@ Proof.
   { unfold get_leaf_means. cbn [rearrange sf_basic sf_sel sf_c2r sf_cols]. rewrite Eb. cbn [negb].
     replace (fs && negb (sf_sel sf)) with false by (destruct fs; [rewrite (Es eq_refl)|]; reflexivity).
     fold (rearrange rp cp sf). rewrite Er'.
-    rewrite (agg_all_keys cs cs') by (intros l; rewrite Hz; destruct (zassoc l cs); reflexivity).
+    rewrite (agg_all_keys cs cs').
+    2:{ intros l; rewrite Hz; destruct (zassoc l cs); reflexivity. }
+    2:{ intros l. unfold zero_row. rewrite Hz. destruct (zassoc l cs) as [[n0 s0]|] eqn:Ez; [|reflexivity].
+        cbn [option_map fst snd].
+        pose proof (proj1 (Forall_forall _ _) Rows _ (zassoc_in _ _ _ Ez)) as Hlen. cbn [snd] in Hlen.
+        pose proof (rpick_length 0 cp s0) as Hp. rewrite Lc, <- Hlen in Hp.
+        destruct (RefSide.pick 0 cp s0), s0; cbn in Hp; try reflexivity; discriminate Hp. }
     rewrite Ea. cbn [rbind]. rewrite <- Ec, Eo'.
     assert (Hnn : is_nil (m_cells m) = false).
     { destruct (m_cells m) as [|x0 r0] eqn:E0; [|reflexivity]. exfalso. apply NE.
